@@ -52,6 +52,8 @@ type fwdHarness struct {
 	frameF     map[int]int        // frame -> number of packets forwarded
 	frameSeen  map[int]bool       // a packet of the frame has arrived
 	frameShift map[int]bool       // ... and that first packet was withheld
+	holes      bool               // a packet was lost upstream at some point
+	frameFate  map[int]bool       // VP8, in-order histories: what happened to the frame's first arrived packet (true = withheld)
 	log        []string
 	// classes
 	nLate, nDup, nRetx, nRetxShifted, nMarkerSet, nPidShift, nWithheldFrames int
@@ -240,6 +242,19 @@ func (h *fwdHarness) deliver(e int) {
 	if ahead {
 		h.frameSeen[s.Frame] = true
 	}
+	if ahead && h.inOrd && !h.holes && h.codec == "video/VP8" && h.or.c02 {
+		// a VP8 frame lies in one temporal layer and the selection only moves at frame starts: as long as nothing arrives
+		// late and nothing was lost, a frame is forwarded or withheld as a whole.  (A frame forwarded in part would carry, by the rule for
+		// withheld frames, the picture id of its predecessor.)  Not after an upstream loss: a packet of a withheld layer that
+		// follows a hole cannot be withheld without renumbering the hole away, and is forwarded.
+		withheld := len(caps) == 0
+		if firstOfFrame {
+			h.frameFate[s.Frame] = withheld
+		} else if fate := h.frameFate[s.Frame]; fate != withheld {
+			t.Fatalf("C02/C04: in-order history, frame %d: packet %v %s although the frame's first arrived packet %s: the frame reaches the receiver in part (its picture id cannot be right either way)\n%s",
+				s.Frame, s, map[bool]string{true: "was withheld", false: "was forwarded"}[withheld], map[bool]string{true: "was withheld", false: "was forwarded"}[fate], strings.Join(h.log, "\n"))
+		}
+	}
 	if len(caps) == 0 {
 		if ahead && h.arr[e] == 1 {
 			// not a late copy and nothing was sent: deliberately withheld
@@ -415,7 +430,7 @@ func genStream(t *rapid.T, cfg streamCfg) []*srcPkt {
 
 func newFwdHarness(t *rapid.T, or fwdOracles, cfg streamCfg, cacheSize int) *fwdHarness {
 	h := &fwdHarness{t: t, or: or, codec: cfg.codec, arr: map[int]int{}, wset: map[int]bool{},
-		first: map[int]capPkt{}, byOut: map[uint16]sentRec{}, inOrd: true, frameW: map[int]int{}, frameN: map[int]int{}, frameF: map[int]int{}, frameSeen: map[int]bool{}, frameShift: map[int]bool{}}
+		first: map[int]capPkt{}, byOut: map[uint16]sentRec{}, inOrd: true, frameW: map[int]int{}, frameN: map[int]int{}, frameF: map[int]int{}, frameSeen: map[int]bool{}, frameShift: map[int]bool{}, frameFate: map[int]bool{}}
 	h.up = newFabUpTrack(nil, cfg.codec, 90000, cacheSize, nil)
 	h.down, h.cap = newCapDown(cfg.codec, 90000, h.up, time.Second)
 	h.pkts = genStream(t, cfg)
@@ -519,6 +534,7 @@ func runForward(t *rapid.T, or fwdOracles, inOrderOnly bool, withNack bool) *fwd
 					continue
 				}
 				h.logf("lose %d packets from e=%d", k, h.next)
+				h.holes = true
 				for i := 0; i < k; i++ {
 					missing = append(missing, h.next+i)
 				}
@@ -608,7 +624,7 @@ func runForward(t *rapid.T, or fwdOracles, inOrderOnly bool, withNack bool) *fwd
 		h.w, h.wset = nil, map[int]bool{}
 		h.arr, h.first, h.byOut = map[int]int{}, map[int]capPkt{}, map[uint16]sentRec{}
 		h.frameW, h.frameN, h.frameF = map[int]int{}, map[int]int{}, map[int]int{}
-		h.frameSeen, h.frameShift = map[int]bool{}, map[int]bool{}
+		h.frameSeen, h.frameShift, h.frameFate = map[int]bool{}, map[int]bool{}, map[int]bool{}
 		for _, p := range h.pkts {
 			h.frameN[p.Frame]++
 		}
